@@ -34,8 +34,9 @@ CONSTANTS
 \*     but another class arrives (a record of a different RRset, RFC 2181 5: no signature covers it)
 \* "forged": an RRSIG naming the zone as signer, fabricated with the private key of the DNSKEY
 \*     that the key argument presents (its algorithm and key tag)
-\* "childKey": the authenticated zone key of a securely delegated child zone (owner is a proper
-\*     subdomain of the Signer's Name)
+\* "childKey": the answer to the zone's DNSKEY query is padded with the authenticated zone key of
+\*     a securely delegated child zone (its owner is a proper subdomain of the Signer's Name);
+\*     the zone's own key is there as well
 AllRRV  == {"genuine", "ownerCase", "owner", "class", "type", "rdataBit", "rdataNameCase", "addRecord", "dropRecord",
             "addOtherClass"}
 AllSIGV == {"genuine", "signerCase", "origTtl", "labelsUp", "labelsDown", "inc", "exp", "keyTag", "signer", "alg",
@@ -73,13 +74,16 @@ SigInc(v)     == IF v = "inc" THEN IncAlt ELSE Inc
 SigExp(v)     == IF v = "exp" THEN ExpAlt ELSE Exp
 SigOrigTtl(v) == IF v = "origTtl" THEN OrigTtlAlt ELSE OrigTtl
 \* the DNSKEY: authenticated zone key, not revoked, usable
-KeyStateOk(v) == v \in {"genuine", "wrongOwner", "childKey"}   \* fine keys, the latter two of other names
-\* RFC 4035 5.3.1: Signer's Name, Algorithm, Key Tag match owner, algorithm, tag of the DNSKEY
-KeyOwnerIsSigner(k) ==
-    IF Deviation = "signerZoneOf" THEN k # "wrongOwner" ELSE k \notin {"wrongOwner", "childKey"}
+KeyStateOk(v) == v \in {"genuine", "wrongOwner", "childKey"}   \* fine keys (wrongOwner: of another name)
+\* the zone's own DNSKEY (at the Signer's Name) is among the keys presented
+HasZoneKey(k) == k \in {"genuine", "childKey"}
+\* RFC 4035 5.3.1: Signer's Name, Algorithm, Key Tag match owner, algorithm, tag of the DNSKEY.
+\* The key tag selects the key: the forger's for a forgery, else the zone key's octets.
 KeyTagAlgMatch(s, k) ==
-    IF s = "forged" THEN k # "genuine" ELSE s \notin {"keyTag", "alg"} /\ k \in {"genuine", "wrongOwner"}
-KeyMatches(s, k) == s # "signer" /\ KeyOwnerIsSigner(k) /\ KeyTagAlgMatch(s, k)
+    IF s = "forged" THEN k # "genuine" ELSE s \notin {"keyTag", "alg"} /\ k \in {"genuine", "wrongOwner", "childKey"}
+KeyOwnerIsSigner(s, k) ==
+    IF s = "forged" THEN (k # "childKey" \/ Deviation = "signerZoneOf") ELSE k # "wrongOwner"
+KeyMatches(s, k) == s # "signer" /\ KeyOwnerIsSigner(s, k) /\ KeyTagAlgMatch(s, k)
 
 Min2(a, b) == IF a < b THEN a ELSE b
 
@@ -92,7 +96,7 @@ Structural(a) ==
 \* what was signed and the key is the signing key
 CryptoOk(a) ==
     /\ RrSignedGenuine(a.rr)
-    /\ \/ SigSignedGenuine(a.sig) /\ a.key \in {"genuine", "wrongOwner"}   \* the zone key's octets
+    /\ \/ SigSignedGenuine(a.sig) /\ a.key \in {"genuine", "wrongOwner", "childKey"}   \* the zone key's octets
        \/ a.sig = "forged" /\ a.key # "genuine"                           \* the forger's own key
 
 InWindow(inc, exp, t)    == SLE(M, inc, t) /\ SLE(M, t, exp)
@@ -105,7 +109,7 @@ Remaining(exp, t) == SDiff(M, t, exp)
 \* earlier call established the verdict (est)?  And the largest TTL it may then carry.
 MaySecure(a, t, est) ==
     /\ RrSignedGenuine(a.rr) /\ RrBelongs(a.rr) /\ SigSignedGenuine(a.sig)
-    /\ (a.key = "genuine" \/ est)
+    /\ (HasZoneKey(a.key) \/ est)
     /\ MayBeInWindow(Inc, Exp, t)
 TtlMax(t) == Remaining(Exp, t)
 \* records that are not members of the RRset the RRSIG covers are never Secure by it
@@ -115,5 +119,5 @@ Clamp(x) == IF x < CfgMin THEN CfgMin ELSE IF x > CfgMax THEN CfgMax ELSE x
 FreshSecure(a, t) ==
     KeyStateOk(a.key) /\ Structural(a) /\ InWindow(SigInc(a.sig), SigExp(a.sig), t) /\ CryptoOk(a)
 Establishes(a, t) ==
-    RrSignedGenuine(a.rr) /\ SigSignedGenuine(a.sig) /\ a.key = "genuine" /\ InWindow(Inc, Exp, t)
+    RrSignedGenuine(a.rr) /\ SigSignedGenuine(a.sig) /\ HasZoneKey(a.key) /\ InWindow(Inc, Exp, t)
 =============================================================================
